@@ -488,3 +488,8 @@ def _short(r):
 
 def describe(plan):
     return {"operations": [_op(o) for o in plan["ops"][:40]]}
+
+
+def seam_check():
+    from .common import seam_net, seam_clock, seam_fs
+    return seam_clock() or seam_fs()
